@@ -512,9 +512,9 @@ class Manager:
                 state.event = event
 
         def _on_done(self, event, *args, **kwargs):
-            if state.timed_out:
-                # stale invocation (handler list computed before the
-                # timeout removed this handler): the caller got TimeoutError
+            if state.flag or state.timed_out:
+                # repeated or stale invocation (handler list computed before
+                # this handler was removed): the outcome is already decided
                 return
             if state.event == event.parent:
                 state.flag = True
